@@ -170,10 +170,11 @@ def lemma_no_silent_clamp(model: Model, run: Run, mr) -> None:
     yield fewer octets and a wrong length/tag/value)."""
     from .facts import const_int
     n_sites = 0
+    from .anchors import asn1 as asn1_anchors, reachable
+    an = asn1_anchors(model)
+    reader_side = {f.qualname for h in list(an.reader_helper.values()) + [an.header] for f in reachable(model, h)} | {fi.qualname for fi in model.cls(READER).methods.values()}
     for fq, fi in list(model.functions.items()):
-        if fi.module != "sansldap.asn1" or isinstance(fi.node, ast.Lambda):
-            continue
-        if not (fi.name.startswith("_read") or fi.name.startswith("_unpack") or fi.name.startswith("_validate") or fi.cls == READER):
+        if fi.module != "sansldap.asn1" or isinstance(fi.node, ast.Lambda) or fq not in reader_side:
             continue
         fl = mr.flow_for(fi)
         for n in walk_no_nested(fi.node):
